@@ -194,6 +194,9 @@ func TestMain(m *testing.M) {
 	gin.SetMode(gin.ReleaseMode)
 	gin.DefaultWriter = ioutil.Discard
 	gin.DefaultErrorWriter = ioutil.Discard
+	if *fProp == "" && os.Getenv("VERIF_GOTEST") != "" {
+		os.Exit(m.Run()) // development only: ad-hoc Test functions dropped next to the harness
+	}
 	if *fProp == "" {
 		fmt.Fprintln(os.Stderr, "harness: -prop required (this binary is driven by /verif/bin/check)")
 		os.Exit(2)
